@@ -550,3 +550,133 @@ def token_count(g: G, _st: Optional[Set[int]] = None) -> Optional[Tuple[int, int
     if g.kind == 'forward':
         return token_count(g.kids[0], _st) if g.kids else None
     return (1, 1)
+
+
+# ----------------------------------------------------------------------------------------------
+# adjacency: what can immediately precede an element
+# ----------------------------------------------------------------------------------------------
+
+def parent_map(roots: Iterable[G]) -> Dict[int, List[Tuple[G, int]]]:
+    pm: Dict[int, List[Tuple[G, int]]] = {}
+    seen: Set[int] = set()
+    for r in roots:
+        for n in walk(r, seen):
+            for i, k in enumerate(n.kids):
+                pm.setdefault(k.uid, []).append((n, i))
+    return pm
+
+
+def last_elements(g: G, _st: Optional[Set[int]] = None) -> List[G]:
+    """Elements that can come last in a match of g; blank skippers are atomic."""
+    _st = _st or set()
+    if g.uid in _st:
+        return []
+    _st = _st | {g.uid}
+    if is_blank_skipper(g):
+        return [g]
+    if g.kind == 'and':
+        out: List[G] = []
+        for x in reversed(g.kids):
+            if x.kind in ZERO_WIDTH:
+                continue
+            out.extend(last_elements(x, _st))
+            if not nullable(x):
+                break
+        return out
+    if g.kind in ('first', 'or', 'each'):
+        out = []
+        for x in g.kids:
+            out.extend(last_elements(x, _st))
+        return out
+    if (g.kind == 'repeat' or g.kind in WRAPPERS) and g.kids:
+        return last_elements(g.kids[0], _st)
+    return [g]
+
+
+def preceders(g: G, pm: Dict[int, List[Tuple[G, int]]], _st: Optional[Set[int]] = None, depth: int = 0) -> List[G]:
+    """Elements that can immediately precede a match of g in some context."""
+    _st = _st or set()
+    if g.uid in _st or depth > 40:
+        return []
+    _st = _st | {g.uid}
+    out: List[G] = []
+    for p, i in pm.get(g.uid, []):
+        if p.kind == 'and':
+            j = i - 1
+            reached_start = True
+            while j >= 0:
+                x = p.kids[j]
+                if x.kind in ZERO_WIDTH:
+                    j -= 1
+                    continue
+                out.extend(last_elements(x))
+                if not nullable(x):
+                    reached_start = False
+                    break
+                j -= 1
+            if reached_start:
+                out.extend(preceders(p, pm, _st, depth + 1))
+        elif p.kind == 'repeat':
+            if p.a['max'] is None or p.a['max'] > 1:
+                out.extend(last_elements(g))
+            out.extend(preceders(p, pm, _st, depth + 1))
+        else:
+            out.extend(preceders(p, pm, _st, depth + 1))
+    return out
+
+
+def skipper_accepts_comments(g: G) -> bool:
+    return any(is_comment(n) for n in walk(g))
+
+
+def swallows_comment_lines(g: G) -> bool:
+    """g contains an unbounded repetition whose body accepts both comments and line breaks, i.e. it can
+    consume a whole block of comment lines (a skipper that needs a line end after its comments, or an
+    optional single trailing comment, cannot)."""
+    for n in walk(g):
+        if n.kind == 'repeat' and n.a.get('max') is None and n.kids:
+            body = n.kids[0]
+            alts = flatten_alt(body, ('first', 'or')) if body.kind in ('first', 'or') else [body]
+            has_comment = any(is_comment(a) or any(is_comment(x) for x in walk(a)) for a in alts)
+            has_nl = False
+            for a in alts:
+                if is_comment(a):
+                    continue
+                for x in walk(a):
+                    if (x.kind == 'lit' and '\n' in x.a['text']) or x.kind == 'lineend' or (x.kind == 'white' and '\n' in x.a.get('chars', '')):
+                        has_nl = True
+            if has_comment and has_nl:
+                return True
+    return False
+
+
+def leading_capture(g: G) -> Optional[Tuple[G, str]]:
+    """(skipper node, results name) if every match of the sequence g starts with a comment-capturing
+    blank skipper."""
+    seq = [x for x in flatten_and(g) if x.kind not in ZERO_WIDTH] if g.kind == 'and' else [g]
+    if not seq:
+        return None
+    x = seq[0]
+    if is_blank_skipper(x):
+        nm = captures_comment(x)
+        return (x, nm) if nm else None
+    return None
+
+
+def unsuppressed_comments(g: G, top: bool = True, _st: Optional[Set[int]] = None) -> List[G]:
+    """Comment tokens inside g whose text reaches g's token list (not below Suppress, not below an
+    element whose own action replaces the tokens)."""
+    _st = _st or set()
+    if g.uid in _st:
+        return []
+    _st = _st | {g.uid}
+    if g.kind in ('suppress', 'lookahead', 'notany'):
+        return []
+    if is_comment(g):
+        return [g]
+    if not top and (value_action(g) is not None):
+        return []
+    out: List[G] = []
+    for k in g.kids:
+        out.extend(unsuppressed_comments(k, False, _st))
+    return out
